@@ -324,3 +324,171 @@ Proof.
   - right. apply orb_false_iff in H. destruct H as [H H4]. apply orb_false_iff in H. destruct H as [H H3].
     apply orb_false_iff in H. destruct H as [H1 H2]. repeat split; assumption.
 Qed.
+
+(* ---------------------------------------------------------------- re-transfer over an earlier copy (every recovery retry) *)
+(* [t0] is what an earlier transfer of a source with the same names left: the same names in the same order, directory for
+   directory and non-directory for non-directory; contents, exec bits and link texts are arbitrary (an out-of-date copy) *)
+Fixpoint same_shape (t t0 : tree) : Prop :=
+  match t with
+  | Dir es =>
+      match t0 with
+      | Dir e0 =>
+          (fix all (es e0 : list (string * tree)) : Prop :=
+             match es, e0 with
+             | [], [] => True
+             | e :: r, d :: r0 => fst e = fst d /\ same_shape (snd e) (snd d) /\ all r r0
+             | _, _ => False
+             end) es e0
+      | _ => False
+      end
+  | _ => match t0 with Dir _ => False | _ => True end
+  end.
+
+Fixpoint aligned (es e0 : list (string * tree)) : Prop :=
+  match es, e0 with
+  | [], [] => True
+  | e :: r, d :: r0 => fst e = fst d /\ same_shape (snd e) (snd d) /\ aligned r r0
+  | _, _ => False
+  end.
+Lemma same_shape_dir es e0 : same_shape (Dir es) (Dir e0) <-> aligned es e0.
+Proof. simpl. reflexivity. Qed.
+
+Lemma upd_mid n f pre d r : ~ In n (names pre) -> upd n f (pre ++ (n, d) :: r) = pre ++ (n, f (Some d)) :: r.
+Proof.
+  induction pre as [|[m c] pre IH]; simpl; intros H.
+  - now rewrite String.eqb_refl.
+  - destruct (String.eqb_spec m n); [exfalso; apply H; now left|]. rewrite IH; [reflexivity | tauto].
+Qed.
+
+Lemma merge_all_aligned es :
+  Forall (fun e => forall d, same_shape (snd e) d -> merge (snd e) (Some d) = snd e) es ->
+  forall e0 pre, aligned es e0 -> NoDup (names pre ++ names es) -> merge_all es (pre ++ e0) = pre ++ es.
+Proof.
+  induction 1 as [|[n c] r Hc Hr IH]; intros e0 pre Hal Hnd.
+  - destruct e0; [reflexivity | contradiction].
+  - destruct e0 as [|[m d] r0]; [contradiction|]. simpl in Hal. destruct Hal as [Hn [Hs Hal]]. subst m.
+    simpl merge_all. rewrite upd_mid.
+    + simpl in Hc. rewrite (Hc d Hs).
+      change (pre ++ (n, c) :: r0) with (pre ++ [(n, c)] ++ r0). rewrite app_assoc. rewrite (IH r0 (pre ++ [(n, c)]) Hal).
+      * now rewrite <- app_assoc.
+      * unfold names in *. rewrite map_app. simpl. rewrite <- app_assoc. exact Hnd.
+    + simpl in Hnd. apply NoDup_remove_2 in Hnd. intros Hin. apply Hnd. apply in_or_app. now left.
+Qed.
+
+(* extracting a tree over an earlier copy of the same shape leaves exactly the tree: every file is replaced, nothing is left over *)
+Theorem merge_same_shape t : wf t -> forall t0, same_shape t t0 -> merge t (Some t0) = t.
+Proof.
+  induction t as [c x|g|es IH] using tree_ind2; intros Hw t0 Hs; try reflexivity.
+  destruct t0 as [c0 x0|e0|g0]; try contradiction.
+  apply wf_dir in Hw. destruct Hw as [Hnd Hall].
+  rewrite merge_dir. simpl odir_entries. f_equal.
+  apply (merge_all_aligned es) with (pre := []); [|exact Hs|exact Hnd].
+  apply (wf_all_Forall (fun t => forall d, same_shape t d -> merge t (Some d) = t)); assumption.
+Qed.
+
+Definition tar_route (r : route) : bool := match r with LR | RL | RRother => true | _ => false end.
+
+(* L->R, R->L, R->other location into a directory [es] that already holds an earlier copy [t0] of the same shape under the
+   source's name: afterwards the entry is exactly the dereferenced source, and every other entry of the directory is what it was *)
+Theorem retransfer_tar fuel r w es sname dname t t' t0 fs' :
+  tar_route r = true -> wf t ->
+  deref fuel t [] t = Some t' ->
+  lookup1 sname es = Some t0 -> same_shape t' t0 ->
+  transfer fuel r w (Some (Dir es)) sname dname t = Some fs' ->
+  lookup fs' [dname; sname] = Some t' /\
+  (forall m, m <> sname -> lookup fs' [dname; m] = lookup1 m es).
+Proof.
+  intros Hr Hw Hde Hl Hs Htr.
+  assert (Hw' : wf t') by (eapply (wf_deref t Hw); eassumption).
+  unfold transfer in Htr. rewrite Hde in Htr. injection Htr as <-.
+  assert (E : match r with LL => Dir [] | LR => l2r (Some (Dir es)) sname dname t' | RL => r2l (Some (Dir es)) sname dname t'
+                      | RRsame => Dir [] | RRother => r2r (Some (Dir es)) sname dname t t' end
+              = extract (members [dname; sname] t') (world dname (Some (Dir es)))).
+  { destruct r; try discriminate.
+    - reflexivity.
+    - rewrite r2l_eq by (right; now exists es). reflexivity.
+    - unfold r2r, write_command. simpl is_dir. cbv iota. unfold run_wcmd.
+      rewrite <- (members_reroot t' [dname] [sname]). reflexivity. }
+  assert (E' : match r with LL => local_copy w (Some (Dir es)) sname dname t t' | LR => l2r (Some (Dir es)) sname dname t'
+                       | RL => r2l (Some (Dir es)) sname dname t' | RRsame => same_loc w (Some (Dir es)) sname dname t
+                       | RRother => r2r (Some (Dir es)) sname dname t t' end
+               = extract (members [dname; sname] t') (world dname (Some (Dir es)))).
+  { destruct r; try discriminate; exact E. }
+  rewrite E'. rewrite extract_members. split.
+  - rewrite lookup_at_path. unfold world. simpl olookup. rewrite String.eqb_refl. rewrite Hl. simpl.
+    now rewrite merge_same_shape.
+  - intros m Hm. now apply frame_at.
+Qed.
+
+(* ---------------------------------------------------------------- the local extraction loop with Python's errors *)
+Section StopFold.
+  Variables (St M : Type) (step : St -> M -> St) (bad : St -> M -> bool).
+  (* the checked fold is the plain fold over the members before the first one that cannot be written; it raises exactly
+     when there is such a member, and no earlier member was refused *)
+  Theorem fold_chk_prefix ms : forall st,
+    exists k,
+      fst (fold_chk step bad ms st) = fold_left step (firstn k ms) st /\
+      (snd (fold_chk step bad ms st) = false -> k = length ms) /\
+      (snd (fold_chk step bad ms st) = true ->
+         exists mb, nth_error ms k = Some mb /\ bad (fold_left step (firstn k ms) st) mb = true) /\
+      (forall j mb, j < k -> nth_error ms j = Some mb -> bad (fold_left step (firstn j ms) st) mb = false).
+  Proof.
+    induction ms as [|a r IH]; intros st.
+    - exists 0. simpl. repeat split; try discriminate; auto. intros j mb Hj. inversion Hj.
+    - simpl. destruct (bad st a) eqn:E.
+      + exists 0. simpl. repeat split; try discriminate.
+        * intros _. exists a. split; [reflexivity | exact E].
+        * intros j mb Hj. inversion Hj.
+      + destruct (IH (step st a)) as [k [H1 [H2 [H3 H4]]]]. exists (S k). simpl. repeat split.
+        * exact H1.
+        * intros H. now rewrite (H2 H).
+        * exact H3.
+        * intros j mb Hj Hn. destruct j as [|j]; simpl in *.
+          -- injection Hn as <-. exact E.
+          -- apply H4; [apply Nat.succ_lt_mono; exact Hj | exact Hn].
+  Qed.
+
+  Corollary fold_chk_clean ms st : snd (fold_chk step bad ms st) = false -> fst (fold_chk step bad ms st) = fold_left step ms st.
+  Proof.
+    intros H. destruct (fold_chk_prefix ms st) as [k [H1 [H2 _]]]. rewrite H1, (H2 H). now rewrite firstn_all.
+  Qed.
+End StopFold.
+
+(* when the loop does not raise it did what the error-free model says *)
+Theorem r2l_chk_clean dst sname dname t' fs :
+  r2l_chk dst sname dname t' = (fs, false) -> fs = r2l dst sname dname t'.
+Proof.
+  unfold r2l_chk, r2l, py_extract.
+  destruct (fold_chk (py_step sname) (py_bad sname) (members [sname] t') (world dname dst, [dname])) as [st e] eqn:E.
+  intros [= <- ->].
+  pose proof (fold_chk_clean _ _ (py_step sname) (py_bad sname) (members [sname] t') (world dname dst, [dname])) as H.
+  rewrite E in H. simpl in H. now rewrite (H eq_refl).
+Qed.
+
+(* what is there when it raises: exactly what the members before the offending one wrote *)
+Theorem r2l_chk_partial dst sname dname t' fs :
+  r2l_chk dst sname dname t' = (fs, true) ->
+  exists k mb,
+    nth_error (members [sname] t') k = Some mb /\
+    fs = fst (fold_left (py_step sname) (firstn k (members [sname] t')) (world dname dst, [dname])) /\
+    py_bad sname (fold_left (py_step sname) (firstn k (members [sname] t')) (world dname dst, [dname])) mb = true.
+Proof.
+  unfold r2l_chk.
+  destruct (fold_chk (py_step sname) (py_bad sname) (members [sname] t') (world dname dst, [dname])) as [st e] eqn:E.
+  intros [= <- ->].
+  destruct (fold_chk_prefix _ _ (py_step sname) (py_bad sname) (members [sname] t') (world dname dst, [dname])) as [k [H1 [_ [H3 _]]]].
+  rewrite E in H1, H3. simpl in H1, H3. destruct (H3 eq_refl) as [mb [Hn Hb]].
+  exists k, mb. repeat split; [exact Hn | now rewrite H1 | exact Hb].
+Qed.
+
+(* witnesses: refused at the first member (nothing written), and refused later (the earlier members stay) *)
+Lemma r2l_chk_witnesses :
+  r2l_chk (Some (Dir [("s", File "old" false)])) "s" "d" (Dir [("a", File "x" false)])
+    = (Dir [("d", Dir [("s", File "old" false)])], true) /\
+  r2l_chk (Some (File "old" false)) "s" "d" (Dir [("a", File "x" false)]) = (Dir [("d", File "old" false)], true) /\
+  r2l_chk (Some (Dir [("s", Dir [("in", File "old" false)])])) "s" "d" (File "x" true)
+    = (Dir [("d", Dir [("s", Dir [("in", File "old" false)])])], true) /\
+  r2l_chk (Some (Dir [("s", Dir [("b", Dir [])])])) "s" "d" (Dir [("a", File "x" false); ("b", File "y" false); ("c", File "z" false)])
+    = (Dir [("d", Dir [("s", Dir [("b", Dir []); ("a", File "x" false)])])], true) /\
+  r2l_chk (Some (Dir [])) "s" "d" (Dir [("a", File "x" false)]) = (Dir [("d", Dir [("s", Dir [("a", File "x" false)])])], false).
+Proof. vm_compute. repeat split. Qed.
